@@ -132,13 +132,15 @@ pub struct ExecOut {
 }
 
 static LOG_TRACE: std::sync::atomic::AtomicBool = std::sync::atomic::AtomicBool::new(false);
+static REUSE: std::sync::atomic::AtomicBool = std::sync::atomic::AtomicBool::new(false);
 
 fn ctx_head(profile: &str, seed: u64, run: u64, exec_i: u64, layouts: &[u64], faults: &Faults) -> String {
     let l: Vec<String> = layouts.iter().map(|x| x.to_string()).collect();
     let lt = LOG_TRACE.load(Relaxed) as u8;
+    let ru = REUSE.load(Relaxed) as u8;
     let build = if cfg!(debug_assertions) { "checked" } else if cfg!(feature = "std") { "relnd" } else { "relnd-nostd" };
     format!(
-        "{{\"type\":\"violation\",\"profile\":\"{profile}\",\"seed\":{seed},\"run\":{run},\"exec\":{exec_i},\"build\":\"{build}\",\"log_trace\":{lt},\"layouts\":[{}],\"faults\":\"{}\",\"ops\":\"",
+        "{{\"type\":\"violation\",\"profile\":\"{profile}\",\"seed\":{seed},\"run\":{run},\"exec\":{exec_i},\"build\":\"{build}\",\"log_trace\":{lt},\"addr_reuse\":{ru},\"layouts\":[{}],\"faults\":\"{}\",\"ops\":\"",
         l.join(","),
         json_escape(&faults.text())
     )
@@ -218,6 +220,7 @@ pub fn execute(head: &str, src: Source<'_>, faults: &Faults, layout_seed: u64, o
     st(St::p_cycle_members, c[7] as u64);
     st(St::p_cycle_survivors, c[8] as u64);
     st_max(St::p_pages_used_max, alloc::pages_used() as u64);
+    st(St::p_blocks_reused, alloc::reused_blocks() as u64);
     st_max(St::p_calls_max, issued.len() as u64);
     let (unreach, p_broken) = exec::m(|m| {
         let ml = m.must_live();
@@ -328,6 +331,13 @@ fn do_run(rc: &RunCfg<'_>, run: u64) {
     let mut opts = ExecOpts { dtor_downgrade_p: kn.dtor_downgrade_p, want_snaps: p.want_snaps, record_dtors: false, layout_noise: false, c16_markers: false };
     st(St::runs, 1);
     // log backend: in one run out of eight a Trace-level logger evaluates every record
+    // allocator: in one run out of six freed addresses are reused (LIFO per size class)
+    let reuse = Rng(mix(rc.seed, run, 10)).chance(1, 6);
+    REUSE.store(reuse, Relaxed);
+    alloc::set_reuse(reuse);
+    if reuse {
+        st(St::f_addr_reuse_runs, 1);
+    }
     let trace = Rng(mix(rc.seed, run, 9)).chance(1, 8);
     LOG_TRACE.store(trace, Relaxed);
     set_log_level(trace);
@@ -913,6 +923,8 @@ fn replay(a: &Args) -> i32 {
     report::SOFT_MASK.store(if a.has("--all-oracles") { report::S_ALL } else { report::soft_mask_for(pname) }, Relaxed);
     LOG_TRACE.store(a.has("--log-trace"), Relaxed);
     set_log_level(a.has("--log-trace"));
+    REUSE.store(a.has("--addr-reuse"), Relaxed);
+    alloc::set_reuse(a.has("--addr-reuse"));
     let layouts: Vec<u64> = a.get("--layouts").unwrap_or("1").split(',').filter(|s| !s.is_empty()).map(|s| s.parse().unwrap_or_else(|_| die("bad layout"))).collect();
     shared::init();
     alloc::init(true);
